@@ -3,5 +3,5 @@ CONSTANTS NKeys = 6  KB <- KB_U6  Vals = {1, 3, 6, 8}  VLen <- VLen8  InsVals <-
 CONSTANTS MaxOps = 3  Preloads <- Pre_U6  Motifs = {"bfs"}  PhaseLen = 1  OpVals <- OpVals_U6
 SPECIFICATION SpecBfs
 VIEW view
-INVARIANTS TypeOK ScansConsistent MapLaws OrderIsByteOrder RleOrderAgrees PreloadsOk
+INVARIANTS TypeOK ScansConsistent MapLaws OrderOk PreloadsOk
 CHECK_DEADLOCK FALSE
